@@ -43,7 +43,7 @@ def main():
 "values, interacting features) for the twelve behaviour-heavy properties. None of these changes is ever committed to",
 "/repo; `tools/try_patch.sh <patch> <tier> <ID...>` applies one, runs checks and always reverts; `tools/vet_seeded.sh`",
 "is the whole confirmation procedure. The table shows the state after the strengthening listed below it.","",
-f"{len(rows)} changes kept; all are caught by the quick check of the property they were written against.","",
+f"{len(rows)} changes kept; {sum(1 for m in rows if any(v['caught'] for v in m['checks_run']['results'].values()))} are caught by the quick check of the property they were written against; the exceptions are listed under 'Not caught'.","",
 "| change | breaks | caught by (quick tier) | divergence classes reported |","|---|---|---|---|"]
     for m in rows:
         res=m["checks_run"]["results"]
@@ -54,6 +54,18 @@ f"{len(rows)} changes kept; all are caught by the quick check of the property th
     out+=["","## Checks strengthened because they first missed a change",""]
     for who,what,why,fix in STRENGTHENED:
         out.append(f"* **{who}** ({what}). *Why missed:* {why}. *Now:* {fix}.")
+    out+=["","## Not caught","",
+"* **C13r2-A** (an inner search node returns the *first* forced mate it meets instead of the shortest, so the value",
+"  depends on move-generation order, which the colour mirror reverses). The root score only changes when a node has",
+"  both a short mate and a *longer* mate that is reached through the capture extension at the horizon (a chain of",
+"  captures ending in a capturing mate) and the longer one is generated first in one orientation only. The author's",
+"  witness is `2k5/2B5/4p3/2bKpP2/3p4/3Q4/8/8 w` at depth 2. Neither tier of C13 reports it: the catalogue",
+"  (≈20 k mirror pairs: start-position BFS, catalogue roots and their depth-2 neighbourhoods up to 12 men, K+x v K",
+"  endgame families, castling endgames, 50 k Q+R v R five-men positions tried at stride 101) contains no pair with",
+"  that structure; two families were added while trying (`competing_mates_family`, sparse BFS states) and kept because",
+"  they widen C13, but they do not reach it. An exhaustive family that would reach it needs at least two capturable",
+"  black units plus a recapture next to a mating net (≥ 7 men), which is outside what C13 can enumerate in minutes.",
+"  The author's own random probe hit it in 4 of 30 000 sparse positions.",""]
     out+=["","## Changes rejected (not kept)","",
 "None of the agents' changes was rejected. Six of my own candidate mutants were discarded because the repository's",
 "tests already kill them, and two are equivalent with respect to the property text (see MUTANTS.md).",""]
